@@ -334,6 +334,21 @@ def outer_inv(S, stack, vis, cyc, root, rank, clock):
     ]
 
 
+_ROLES = {
+    "graph": (lambda v: isinstance(v, Sorter), "topological sorter"),
+    "stack": (lambda v: isinstance(v, MemSet) and v.kind == "deque", "work-list deque"),
+    "visited": (lambda v: isinstance(v, MemSet) and v.kind == "set", "visited set"),
+    "predecessors": (lambda v: isinstance(v, MemSet) and v.kind == "list", "predecessor list"),
+    "parent": (lambda v: isinstance(v, SV) and z3.is_const(v.t) and v.t.decl().name().startswith("popped"), "popped work item"),
+}
+
+
+def _role(env, role):
+    """the local variable playing `role` in get_type_graph, found by what it holds (robust to renaming locals)"""
+    pred, what = _ROLES[role]
+    return env.find(pred, what)
+
+
 def obligations(chk):
     w = World()
     I = make_interp(w)
@@ -341,13 +356,13 @@ def obligations(chk):
     box = {}
 
     def get_state(env):
-        g, st, vi = env.lookup("graph"), env.lookup("stack"), env.lookup("visited")
+        g, st, vi = env.lookup(_role(env, "graph")), env.lookup(_role(env, "stack")), env.lookup(_role(env, "visited"))
         return (g.processed, g.edge), st.arr, vi.arr, w.cyc
 
     def havoc_outer(I, path, env, k):
-        env.set("graph", Sorter(path.fresh("processed", ArrB), path.fresh("edge", z3.ArraySort(Val, ArrB))))
-        env.set("stack", MemSet(path.fresh("stack", ArrB), "deque"))
-        env.set("visited", MemSet(path.fresh("visited", ArrB), "set"))
+        env.set(_role(env, "graph"), Sorter(path.fresh("processed", ArrB), path.fresh("edge", z3.ArraySort(Val, ArrB))))
+        env.set(_role(env, "stack"), MemSet(path.fresh("stack", ArrB), "deque"))
+        env.set(_role(env, "visited"), MemSet(path.fresh("visited", ArrB), "set"))
         w.cyc = path.fresh("cyclic", ArrB)
         w.rank, w.clock = path.fresh("rank", z3.ArraySort(Val, IntS)), path.fresh("clock", IntS)
 
@@ -357,17 +372,17 @@ def obligations(chk):
     I.loop_specs[(func, 0)] = LoopSpec("worklist", havoc_outer, inv_outer)
 
     def havoc_inner(I, path, env, k):
-        box["stack_in"], box["vis_in"], box["cyc_in"] = env.lookup("stack").arr, env.lookup("visited").arr, w.cyc
-        env.set("stack", MemSet(path.fresh("stack_i", ArrB), "deque"))
-        env.set("visited", MemSet(path.fresh("visited_i", ArrB), "set"))
-        env.set("predecessors", MemSet(path.fresh("preds_i", ArrB), "list"))
+        box["stack_in"], box["vis_in"], box["cyc_in"] = env.lookup(_role(env, "stack")).arr, env.lookup(_role(env, "visited")).arr, w.cyc
+        env.set(_role(env, "stack"), MemSet(path.fresh("stack_i", ArrB), "deque"))
+        env.set(_role(env, "visited"), MemSet(path.fresh("visited_i", ArrB), "set"))
+        env.set(_role(env, "predecessors"), MemSet(path.fresh("preds_i", ArrB), "list"))
         w.cyc = path.fresh("cyclic_i", ArrB)
         w.rank, w.clock = path.fresh("rank_i", z3.ArraySort(Val, IntS)), path.fresh("clock_i", IntS)
 
     def inv_inner(I, path, env, k):
         S, stack, vis, cyc = get_state(env)
-        preds = env.lookup("predecessors").arr
-        parent = to_val(env.lookup("parent"))
+        preds = env.lookup(_role(env, "predecessors")).arr
+        parent = to_val(env.lookup(_role(env, "parent")))
         u = unwrap_f(ntype(parent))
         proc, edge = S
         # the outer invariant, with the popped parent "in flight" (neither queued nor processed yet)
@@ -667,23 +682,42 @@ def root_label_obligations(chk):
     for n in ast.walk(node):
         for ch in ast.iter_child_nodes(n):
             parents[ch] = n
+    # roles by shape, not by name: the visited set is the local initialised with a set display; t is the first parameter;
+    # the root node is the local built by TypeNode(t, ...)
+    t_name = node.args.args[0].arg
+    vis_name, root_name = None, None
     for n in ast.walk(node):
-        if isinstance(n, ast.Name) and n.id == "visited":
+        if isinstance(n, ast.Assign) and len(n.targets) == 1 and isinstance(n.targets[0], ast.Name):
+            if isinstance(n.value, ast.Set):
+                vis_name = n.targets[0].id
+            if isinstance(n.value, ast.Call) and ast.unparse(n.value.func).endswith("TypeNode") and n.value.args and isinstance(n.value.args[0], ast.Name) \
+                    and n.value.args[0].id == t_name:
+                root_name = n.targets[0].id
+    seeded_ok = False
+    for n in ast.walk(node):
+        if isinstance(n, ast.Name) and n.id == vis_name:
             p = parents.get(n)
             if isinstance(p, ast.Assign) and n in p.targets:
+                elts = sorted(ast.unparse(e) for e in p.value.elts) if isinstance(p.value, ast.Set) else []
+                seeded_ok = elts == sorted([f"{root_name}.type", f"{root_name}.unwrapped"])
                 uses_visited.append("init:" + ast.unparse(p.value))
             elif isinstance(p, ast.Compare) and len(p.ops) == 1 and isinstance(p.ops[0], ast.In) and p.comparators == [n]:
-                uses_visited.append("test:" + ast.unparse(parents.get(p)))
+                g = parents.get(p)
+                both = (isinstance(g, ast.BoolOp) and isinstance(g.op, ast.Or) and len(g.values) == 2
+                        and all(isinstance(v, ast.Compare) and len(v.ops) == 1 and isinstance(v.ops[0], ast.In) and isinstance(v.comparators[0], ast.Name)
+                                and v.comparators[0].id == vis_name for v in g.values))
+                uses_visited.append("test:" + ("membership-of-the-member-or-its-unwrapped-form" if both else ast.unparse(g)))
             elif isinstance(p, ast.Attribute) and p.attr == "add":
                 uses_visited.append("add:" + ast.unparse(parents.get(p)))
             else:
                 uses_visited.append("other:" + ast.unparse(p))
-        if isinstance(n, ast.Name) and n.id == "t" and isinstance(n.ctx, ast.Load):
-            uses_t.append(ast.unparse(parents.get(n)))
-    ok_visited = (sorted(set(x.split(":")[0] for x in uses_visited)) == ["add", "init", "test"]
-                  and all(x == "test:child in visited or unwrapped in visited" for x in uses_visited if x.startswith("test:"))
-                  and [x for x in uses_visited if x.startswith("init:")] == ["init:{root.type, root.unwrapped}"])
-    ok_t = sorted(uses_t) == sorted(["inspection.unwrap(t)", "TypeNode(t, u)"])
+        if isinstance(n, ast.Name) and n.id == t_name and isinstance(n.ctx, ast.Load):
+            par = parents.get(n)
+            uses_t.append("unwrap" if isinstance(par, ast.Call) and ast.unparse(par.func).endswith("unwrap") else
+                          ("root-node" if isinstance(par, ast.Call) and ast.unparse(par.func).endswith("TypeNode") else ast.unparse(par)))
+    ok_visited = (vis_name is not None and sorted(set(x.split(":")[0] for x in uses_visited)) == ["add", "init", "test"]
+                  and all(x == "test:membership-of-the-member-or-its-unwrapped-form" for x in uses_visited if x.startswith("test:")) and seeded_ok)
+    ok_t = sorted(uses_t) == ["root-node", "unwrap"]
     chk.add(Ob(func, "root-label::visited-is-read-only-through-the-membership-test-and-seeded-with-the-root-and-its-unwrapped-form", "ast", [],
                z3.BoolVal(ok_visited), {"uses": uses_visited}))
     chk.add(Ob(func, "root-label::the-root-annotation-is-used-only-to-build-the-root-node", "ast", [], z3.BoolVal(ok_t), {"uses": uses_t}))
